@@ -283,6 +283,8 @@ def c14d(F, R):
 
 
 @rule("C19", "C19.e.register-enumerations-complete", floor=1)
+@rule("C01", "C01.l.register-enumerations-complete", floor=1)
+@rule("C05", "C05.g.register-enumerations-complete", floor=1)
 @rule("C14", "C14.e.register-enumerations-complete", floor=1)
 def c14e(F, R):
     """every loop or range that enumerates register numbers through Register::from_num runs up to the last register (x31): a bound of 31 instead of 32 silently drops t6 from whatever walks a RegisterSet (lint loops, kills, the dump)"""
@@ -343,6 +345,23 @@ def c14e(F, R):
                             b = _range_end(r)
                             if b is not None:
                                 bound = (b, loc(r))
+            # (c) any comparison of a cursor that feeds from_num with an integer literal in the same body bounds the enumeration
+            extra = []
+            vars_in_arg = {ekey(x) for x in walk(arg, pats=False) if x.get("k") in ("Field", "Path") and x.get("res_kind") != "Fn"} | {akey}
+            for cmp_ in walk(body, pats=False):
+                if cmp_.get("k") == "Binary" and cmp_["op"] in ("Lt", "Le", "Gt", "Ge"):
+                    for side, other, flip in ((cmp_["a"], cmp_["b"], False), (cmp_["b"], cmp_["a"], True)):
+                        v = lit_value(other)
+                        if isinstance(v, int) and not isinstance(v, bool) and ekey(side) in vars_in_arg and v >= 8:
+                            op = cmp_["op"]
+                            if flip:
+                                op = {"Lt": "Gt", "Gt": "Lt", "Le": "Ge", "Ge": "Le"}[op]
+                            extra.append((v if op in ("Lt", "Ge") else v + 1, loc(cmp_)))
+            if bound is None and extra:
+                bound = extra[0]
+            for be, where in extra:
+                if bound is not None and be != nreg:
+                    bound = (be, where)
             if bound is None:
                 continue
             n += 1
